@@ -1,9 +1,34 @@
 import Driver.Proto
+import ScrapliModel.Logs
 namespace Driver.C11
-open Scrapli
+open Scrapli Scrapli.Logs
 
-/-- line-protocol handler for property C11 (arguments after the leading `c11` token) -/
+def lvlOfWord : String → Option Lvl
+  | "debug" => some .debug
+  | "info" => some .info
+  | "critical" => some .critical
+  | _ => none
+
+def showLvl : Lvl → String
+  | .debug => "debug" | .info => "info" | .critical => "critical" | .other => "other"
+
+/-- line-protocol handler for property C11 (arguments after the leading `c11` token)
+
+* `shouldlog <nLoggers> <hex of Instance.Level> <debug|info|critical>` → `emit=<n>`: how many
+  logger calls one message of that level causes
+* `withlevel <hex>` → `dom=<0|1> level=<debug|info|critical|error>` (dom: the word is ASCII) -/
 def handleC11 : List String → String
+  | ["shouldlog", n, inst, msg] =>
+    match n.toNat?, fromHex inst, lvlOfWord msg with
+    | some n, some i, some m =>
+      "emit=" ++ toString (if shouldLog n (levelOfField i) m then n else 0)
+    | _, _, _ => "bad-args"
+  | ["withlevel", h] =>
+    match fromHex h with
+    | some s =>
+      let dom := s.all fun b => b.toNat < 128
+      "dom=" ++ b2s dom ++ " level=" ++ (match withLevel s with | some l => showLvl l | none => "error")
+    | none => "bad-args"
   | _ => "bad-op"
 
 end Driver.C11
